@@ -1420,6 +1420,14 @@ impl Exec {
             "set_oracle" => {
                 self.set_oracle_action(a);
             }
+            "copy_account" => {
+                // environment: a byte-for-byte copy of an account at another address (a forged look-alike)
+                let from = self.k(s(a, "from").unwrap_or("?"));
+                let to = self.k(s(a, "to").unwrap_or("?"));
+                if let Some(acc) = self.env.world.get(&from).cloned() {
+                    self.env.world.set(to, acc);
+                }
+            }
             "inject_bank" => {
                 if let Err(e) = self.inject_bank(a) {
                     res = Err((-3000, e, 0));
